@@ -3,8 +3,11 @@ package main
 // In-process worker ("vworker freshvm" of DESIGN.md §4 C20). The c20 binary re-executes
 // itself as
 //
-//	c20 worker <fileB>            B alone on a fresh parser+VM
-//	c20 worker <fileA> <fileB>    A on VM1, then B on a new parser+VM2, same process
+//	c20 worker [-string] <fileB>            B alone on a fresh parser+VM
+//	c20 worker [-string] <fileA> <fileB>    A on VM1, then B on a new parser+VM2, same process
+//
+// Without -string each program goes through (*VM).LoadAndRun(file); with -string through
+// Parser.ParseString + Program.GetValue on vm.CreateContext (the second entry point embedders use).
 //
 // Each program is run exactly the way cmd.RunScriptFile runs a script (NewParser, NewVM, the
 // CLI's library loaders minus websocket/annotation, LoadAndRun, ShowControl of a returned
@@ -27,7 +30,7 @@ import (
 
 const workerMarker = "\n@@C20-NEXT-PROGRAM@@\n"
 
-func workerRunOne(path string) {
+func workerRunOne(path string, viaString bool) {
 	defer func() {
 		if r := recover(); r != nil {
 			// a Go panic inside the interpreter: report it on stderr (part of the compared
@@ -41,7 +44,28 @@ func workerRunOne(path string) {
 		uncaught = true
 		p.ShowControl(acl)
 	})
-	_, ctl := vm.LoadAndRun(path)
+	var ctl data.Control
+	if viaString {
+		// the other entry point of an embedder: parse a source string, run the program on a
+		// context of the VM (what HTTP handlers, eval hosts and the other checks' harness do)
+		src, err := os.ReadFile(path)
+		if err != nil {
+			fmt.Fprintf(os.Stderr, "cannot read %s: %v\n", path, err)
+			os.Exit(3)
+		}
+		prog, acl := p.ParseString(string(src), path)
+		if acl != nil {
+			ctl = acl
+		} else {
+			ctx := vm.CreateContext(p.GetVariables())
+			_, ctl = prog.GetValue(ctx)
+			if data.FlushAllBuffersFn != nil {
+				data.FlushAllBuffersFn()
+			}
+		}
+	} else {
+		_, ctl = vm.LoadAndRun(path)
+	}
 	if ctl != nil {
 		p.ShowControl(ctl)
 	}
@@ -54,16 +78,21 @@ func workerRunOne(path string) {
 }
 
 func workerMain(args []string) {
+	viaString := false
+	if len(args) > 0 && args[0] == "-string" {
+		viaString = true
+		args = args[1:]
+	}
 	if len(args) < 1 || len(args) > 2 {
-		fmt.Fprintln(os.Stderr, "usage: c20 worker [fileA] fileB")
+		fmt.Fprintln(os.Stderr, "usage: c20 worker [-string] [fileA] fileB")
 		os.Exit(3)
 	}
 	if len(args) == 2 {
-		workerRunOne(args[0])
+		workerRunOne(args[0], viaString)
 	}
 	// the marker is written in both modes so that B's section is cut the same way
 	os.Stdout.WriteString(workerMarker)
 	os.Stderr.WriteString(workerMarker)
-	workerRunOne(args[len(args)-1])
+	workerRunOne(args[len(args)-1], viaString)
 	os.Exit(0)
 }
